@@ -178,6 +178,15 @@ func ShardIndex() int {
 	return s
 }
 
+// Shards returns VERIF_SHARDS (default 1).
+func Shards() int {
+	s, _ := strconv.Atoi(os.Getenv("VERIF_SHARDS"))
+	if s < 1 {
+		s = 1
+	}
+	return s
+}
+
 func splitmix(x uint64) uint64 {
 	x += 0x9e3779b97f4a7c15
 	z := x
@@ -285,8 +294,12 @@ func Run[C any](t *testing.T, spec Spec[C]) {
 	}
 
 	// 2. fixed cases
-	if spec.Fixed != nil && ShardIndex() == 0 {
-		for _, c := range spec.Fixed() {
+	// (distributed round-robin over the shards)
+	if spec.Fixed != nil {
+		for i, c := range spec.Fixed() {
+			if i%Shards() != ShardIndex() {
+				continue
+			}
 			if f := r.eval(c, true); f != nil {
 				r.report(c, *f)
 			}
